@@ -149,7 +149,9 @@ func (v *fnVC) instr(b *ssa.BasicBlock, in ssa.Instruction, st *State) {
 		cp := v.val(i.Cap)
 		ln = intTo64(ln)
 		cp = intTo64(cp)
-		v.safetyOb("makeslice-len", i.Pos(), mk(sapp("and", sapp("bvsle", bvLit(0, 64), ln.S), sapp("bvsle", ln.S, cp.S), sapp("bvult", cp.S, "#x4000000000000000")), sBool))
+		v.safetyOb("makeslice-len", i.Pos(), mk(sapp("and", sapp("bvsle", bvLit(0, 64), ln.S), sapp("bvsle", ln.S, cp.S)), sBool))
+		e.assume(tImp(R, mk(sapp("bvult", cp.S, "#x4000000000000000"), sBool)))
+		e.uses["make([]T, n, m) succeeds only for capacities far below 2^62 (larger requests abort the process with out-of-memory, which is not modelled)"] = true
 		sl := mk(sapp("mkSlice", a.S, bvLit(0, 64), ln.S, cp.S), sSlice).withGo(i.Type())
 		et := i.Type().Underlying().(*types.Slice).Elem()
 		es := e.sortOf(et)
